@@ -297,6 +297,12 @@ pub fn run(ctx: Ctx) -> Report {
         let mut rng0 = Rng::new(ctx.seed ^ 0xC11);
         let scen = scenarios(&mut rng0, n_scen);
         let mut rng = Rng::new(ctx.seed.wrapping_mul(31).wrapping_add(shard as u64) ^ 0xC11C11);
+        // the session's own keep-alive task as a concurrent writer on a transport that stalls in mid-packet and
+        // recovers (workload of C04, judged here for contiguity and order)
+        {
+            let mut r2 = Rng::new(ctx.seed.wrapping_mul(131).wrapping_add(shard as u64) ^ 0x57A11);
+            super::c04::run_stalled_as(rep, &mut r2, ctx.tier.pick(480, 8000) / nshards, "wire_order");
+        }
         for (si, sc) in scen.iter().enumerate() {
             if si % nshards != shard {
                 continue;
@@ -380,9 +386,9 @@ pub fn run(ctx: Ctx) -> Report {
 pub fn meta() -> CheckMeta {
     CheckMeta {
         level: "exploration",
-        rule: "scenario = 1-5 tasks performing the client's request sequence (open_stream, disable_buffering, destination write, 0-4 data frames via write_data_frame / the forwarding task) plus optional keep-alive writers on ONE fresh client Session (real server Session as peer), every payload tagged (task, sequence, fill); per scenario: the unperturbed run, EVERY single pre-emption position x yield length {1,2,4,8} at the named scheduling points of write_frame / write_with_padding / open_stream, all pairs of positions for small scenarios, and random schedules; thorough adds a 4-worker runtime without injected yields. Oracle: the recorded client->server wire parses completely, Settings is the first frame, SYN(id) precedes PSH(id), each task's frames appear exactly once in submission order, and the peer stream received the concatenated payloads. distinct_nontrivial = distinct (scenario, pre-emption plan / interleaving id). 40% of the generated scenarios (and two of the fixed ones) run the session's own keep-alive task (interval 30 s), whose start-up request races the session start and the first requests under the enumerated pre-emptions. End to end: one application upload through the SOCKS5 / HTTP CONNECT front-end in write patterns that fill the front-end's 8 KiB read buffer exactly and then do not (8192,8192,1000; 16384,5; 65536,10; ...), back to back or with gaps, pipelined with the request or after the reply, half-closed at once or after a pause: the byte stream arriving at the target must be the upload, in order and complete.".into(),
+        rule: "scenario = 1-5 tasks performing the client's request sequence (open_stream, disable_buffering, destination write, 0-4 data frames via write_data_frame / the forwarding task) plus optional keep-alive writers on ONE fresh client Session (real server Session as peer), every payload tagged (task, sequence, fill); per scenario: the unperturbed run, EVERY single pre-emption position x yield length {1,2,4,8} at the named scheduling points of write_frame / write_with_padding / open_stream, all pairs of positions for small scenarios, and random schedules; thorough adds a 4-worker runtime without injected yields. Oracle: the recorded client->server wire parses completely, Settings is the first frame, SYN(id) precedes PSH(id), each task's frames appear exactly once in submission order, and the peer stream received the concatenated payloads. distinct_nontrivial = distinct (scenario, pre-emption plan / interleaving id). 40% of the generated scenarios (and two of the fixed ones) run the session's own keep-alive task (interval 30 s), whose start-up request races the session start and the first requests under the enumerated pre-emptions. End to end: one application upload through the SOCKS5 / HTTP CONNECT front-end in write patterns that fill the front-end's 8 KiB read buffer exactly and then do not (8192,8192,1000; 16384,5; 65536,10; ...), back to back or with gaps, pipelined with the request or after the reply, half-closed at once or after a pause: the byte stream arriving at the target must be the upload, in order and complete. Stalled transports: the session's keep-alive task and a data writer on a 256-byte pipe that stops draining in mid-packet (0-200 bytes into the next packet) for up to timeout + 2 intervals and recovers: the wire must stay whole frames carrying the submitted payload in order (a prefix if the session closed).".into(),
         assumptions: vec!["a forced yield at a named scheduling point models a pre-emption by another worker thread there".into(), "at most two forced pre-emptions per run are enumerated systematically".into()],
-        floors: vec![("schedules_run", 2000), ("single_preemptions", 1000), ("frames_parsed", 10_000), ("front_end_uploads_checked", 24)],
+        floors: vec![("schedules_run", 2000), ("single_preemptions", 1000), ("frames_parsed", 10_000), ("front_end_uploads_checked", 24), ("stalled_transport_cases", 200)],
         exhaustive: false,
     }
 }
